@@ -202,9 +202,9 @@ deriving DecidableEq, Repr
 
 /-- `seq_type in fasta.CODE_TABLES` -/
 def typeOfPrefix (p : List Char) : Option SeqType :=
-  if p = "aa".toList then some .aa
-  else if p = "dna".toList then some .dna
-  else if p = "rna".toList then some .rna
+  if p = ['a', 'a'] then some .aa
+  else if p = ['d', 'n', 'a'] then some .dna
+  else if p = ['r', 'n', 'a'] then some .rna
   else none
 
 /-- `compound.split(':', 1)` when `':' in compound` -/
@@ -287,10 +287,10 @@ def guessType (filename : List Char) (type : Option (List Char)) : List Char :=
   match type with
   | some t => t
   | none =>
-    if endsWith filename ".fna".toList then "dna".toList
-    else if endsWith filename ".ffn".toList then "dna".toList
-    else if endsWith filename ".faa".toList then "aa".toList
-    else if endsWith filename ".frn".toList then "rna".toList
-    else "aa".toList
+    if endsWith filename ['.', 'f', 'n', 'a'] then ['d', 'n', 'a']
+    else if endsWith filename ['.', 'f', 'f', 'n'] then ['d', 'n', 'a']
+    else if endsWith filename ['.', 'f', 'a', 'a'] then ['a', 'a']
+    else if endsWith filename ['.', 'f', 'r', 'n'] then ['r', 'n', 'a']
+    else ['a', 'a']
 
 end PtModel.Fasta
